@@ -77,6 +77,31 @@ def make_reference_frames(d, seed, thorough):
             n += 1
         else:
             os.remove(raw)
+    # a trained dictionary and frames that need it (decoded by ONE reused decoder between the other frames)
+    sd = os.path.join(d, "samples")
+    os.makedirs(sd)
+    for k in range(300):
+        buf = bytearray()
+        while len(buf) < 600:
+            buf += rnd.choice(words) if rnd.random() < 0.85 else bytes(rnd.getrandbits(8) for _ in range(rnd.randint(1, 12)))
+        with open(os.path.join(sd, f"s{k:03d}"), "wb") as f:
+            f.write(bytes(buf))
+    dpath = os.path.join(d, "reference.dict")
+    p = subprocess.run(["zstd", "-q", "--train", "--maxdict=4096"] + sorted(os.path.join(sd, x) for x in os.listdir(sd)) + ["-o", dpath], stdout=subprocess.PIPE, stderr=subprocess.STDOUT)
+    if p.returncode == 0 and os.path.exists(dpath):
+        for name, size in (("dict_small", 500), ("dict_3k", 3000)):
+            buf = bytearray()
+            while len(buf) < size:
+                buf += rnd.choice(words)
+            raw = os.path.join(d, name + ".raw")
+            with open(raw, "wb") as f:
+                f.write(bytes(buf[:size]))
+            q = subprocess.run(["zstd", "-q", "-f", "-3", "-D", dpath, raw, "-o", os.path.join(d, name + ".zst")], stdout=subprocess.PIPE, stderr=subprocess.STDOUT)
+            if q.returncode == 0:
+                n += 1
+            else:
+                os.remove(raw)
+    shutil.rmtree(sd, ignore_errors=True)
     return n
 
 
